@@ -748,6 +748,7 @@ class Translator:
         self.intern_all(names)
         defs = []
         funcs = []
+        methods = {}
         translated = set()
         for fname, fd in self.functions.items():
             try:
@@ -756,7 +757,7 @@ class Translator:
                 self.skipped.append((fname, str(e)))
                 continue
             defs.append(f'def f_{fname} : FuncDef := {body}\n')
-            funcs.append(f'(0, {self.ident(fname)}, f_{fname})')
+            funcs.append(f'({self.ident(fname)}, f_{fname})')
             translated.add(('', fname))
         for ci in self.classes.values():
             for mname, (fd, kind) in ci.methods.items():
@@ -767,7 +768,7 @@ class Translator:
                     continue
                 lname = f'm_{ci.name}_{mname}'
                 defs.append(f'def {lname} : FuncDef := {body}\n')
-                funcs.append(f'({self.ident(ci.name)}, {self.ident(mname)}, {lname})')
+                methods.setdefault(ci.name, []).append(f'({self.ident(mname)}, {lname})')
                 translated.add((ci.name, mname))
         missing = [r for r in REQUIRED if r not in translated]
         if missing:
@@ -790,7 +791,7 @@ class Translator:
             base = f'some {self.ident(ci.base)}' if ci.base in self.classes else 'none'
             classes.append(f'({self.ident(ci.name)}, {{ name := {self.chars(ci.name)}, base := {base}, members := {members}, '
                            f'fields := {self.elist(fields)}, isEnum := {"true" if ci.is_enum else "false"}, '
-                           f'isDataclass := {"true" if ci.is_dataclass else "false"} }})')
+                           f'isDataclass := {"true" if ci.is_dataclass else "false"}, methods := {self.elist(methods.get(ci.name, []))} }})')
         globs = []
         for g, v in self.globals.items():
             try:
